@@ -1,3 +1,2 @@
 import PieModel.Props.C06
-open PieModel
-#print axioms C06_placeholder
+#print axioms PieModel.C06_placeholder
